@@ -6,7 +6,7 @@ ROOT = os.path.dirname(os.path.abspath(__file__))
 def theorems(pf):
     p = os.path.join(ROOT, "lean", pf)
     if not os.path.exists(p): return []
-    return re.findall(r"^\s*theorem\s+(\S+)", open(p).read(), re.M)
+    return re.findall(r"^\s*theorem\s+([A-Za-z_][\w.']*)", open(p).read(), re.M)
 rows = []
 for f in sorted(glob.glob(os.path.join(ROOT, "checks", "C*.json"))):
     c = json.load(open(f)); pid = c["property"]
